@@ -20,6 +20,9 @@ import c18_lib as L
 import npcatalog as C
 
 UNITS = ("m", "kg", "K")
+# every second value operand carries a commensurable but differently scaled unit, so that a handler
+# which converts an argument IN PLACE (instead of taking a converted copy) shows up as a changed input
+ALT = {"m": "cm", "kg": "g", "K": "R"}
 FAULT_UNIT = "s"
 # functions/methods whose FIRST operand is modified by design (NumPy's contract), even when a
 # particular instantiation happens not to change a byte (empty arrays, refused calls)
@@ -29,7 +32,7 @@ STATIC_INPLACE = {"numpy.put", "numpy.place", "numpy.putmask", "numpy.copyto", "
 FAULTS = ("valid", "incommensurable", "non-dimensionless", "bad-shape", "bad-kwarg", "int-out", "readonly-out")
 
 
-def _wrap_views(units, out_mode, held, fault=None, pos=None):
+def _wrap_views(units, out_mode, held, fault=None, pos=None, alt=False):
     import unyt
 
     counter = {"i": -1}
@@ -48,6 +51,8 @@ def _wrap_views(units, out_mode, held, fault=None, pos=None):
             held.append((op, H))
             return H.obj
         uname = "dimensionless" if op.dimless else units[op.group % len(units)]
+        if alt and i % 2 == 1 and uname in ALT:
+            uname = ALT[uname]
         if fault in ("incommensurable", "non-dimensionless") and i == pos:
             uname = FAULT_UNIT
         if isinstance(d, np.ndarray):
@@ -131,7 +136,7 @@ def _run(t, call, wrap, held):
     return exc, snaps0, snaps1
 
 
-def run_case(tid, dk, sc, seed, fault="valid", pos=None, out_mode="unyt"):
+def run_case(tid, dk, sc, seed, fault="valid", pos=None, out_mode="unyt", alt=False):
     """(status, findings): findings = [(key, what)]"""
     t = [x for x in C.templates() if x.tid == tid][0]
     try:
@@ -163,7 +168,7 @@ def run_case(tid, dk, sc, seed, fault="valid", pos=None, out_mode="unyt"):
             pass
     held = []
     try:
-        exc, s0, s1 = _run(t, call, _wrap_views(UNITS, out_mode, held, fault, pos), held)
+        exc, s0, s1 = _run(t, call, _wrap_views(UNITS, out_mode, held, fault, pos, alt), held)
     except Exception as e:  # noqa: BLE001
         return "skip-wrap", []
     if len(s0) != len(b0):
@@ -195,7 +200,7 @@ def run_case(tid, dk, sc, seed, fault="valid", pos=None, out_mode="unyt"):
     return status, out
 
 
-def replay_snippet(tid, dk, sc, seed, fault, pos, out_mode, key, harness_dir):
+def replay_snippet(tid, dk, sc, seed, fault, pos, out_mode, alt, key, harness_dir):
     return (
         "import sys, warnings\n"
         "warnings.simplefilter('ignore')\n"
@@ -203,17 +208,17 @@ def replay_snippet(tid, dk, sc, seed, fault, pos, out_mode, key, harness_dir):
         "import numpy as np\n"
         "np.seterr(all='ignore')\n"
         "import c18_cat as K\n"
-        f"st, found = K.run_case({tid!r}, {dk!r}, {sc!r}, {seed!r}, {fault!r}, {pos!r}, {out_mode!r})\n"
+        f"st, found = K.run_case({tid!r}, {dk!r}, {sc!r}, {seed!r}, {fault!r}, {pos!r}, {out_mode!r}, {alt!r})\n"
         "print('status:', st, '\\nverdict:', found)\n"
         f"assert {key!r} not in [k for k, _ in found], found\n"
     )
 
 
 def sweep(job):
-    """one worker: (template index slice, data seed, which faults, sampling seed, fraction)"""
+    """one worker: (template index slice, data seed, which faults, sampling seed, fraction, alt units)"""
     import random
 
-    lo, hi, dseed, faults, sseed, frac = job
+    lo, hi, dseed, faults, sseed, frac, alt = job
     warnings.simplefilter("ignore")
     np.seterr(all="ignore")
     ts = C.templates()[lo:hi]
@@ -239,12 +244,12 @@ def sweep(job):
                         continue
                     oms = ("unyt", "bare") if (t.out_form and f in ("valid", "int-out")) else ("unyt",)
                     for om in oms:
-                        st, found = run_case(t.tid, dk, sc, dseed, f, p, om)
+                        st, found = run_case(t.tid, dk, sc, dseed, f, p, om, alt)
                         k = f"{f}:{st}"
                         stats[k] = stats.get(k, 0) + 1
                         if not st.startswith("skip"):
-                            cases.append((t.tid, sc, dk, f, p, om))
+                            cases.append((t.tid, sc, dk, f, p, om, alt))
                         for key, what in found:
                             if key not in fails:
-                                fails[key] = dict(tid=t.tid, dk=dk, sc=sc, seed=dseed, fault=f, pos=p, om=om, what=what)
+                                fails[key] = dict(tid=t.tid, dk=dk, sc=sc, seed=dseed, fault=f, pos=p, om=om, alt=alt, what=what)
     return dict(stats=stats, fails=fails, cases=cases)
